@@ -10,7 +10,7 @@ import struct
 import numpy as np
 
 from harness import costdef, curves, numeric, par
-from harness import enums
+from harness import enums, monitor, scale
 
 METRICS = ["r2", "rmspe", "rmsle", "rpd", "smape"]
 
@@ -254,6 +254,200 @@ def _record_random(item):
     return case, {"points": P.tolist(), "metric": metric, "queries": queries, "values": [(e.get("value"), e.get("expected")) for e in evs]}, extra
 
 
+# ---------------------------------------------------------------- scale family: MIP / global RMSE on thousands of breakpoints
+# evaluation.mip is quadratic in the number of breakpoints (one global RMSE per deleted interior breakpoint), so it is the
+# place where a "sample the references above a size" shortcut hides: invisible on the reductions of a few dozen points the
+# families above use.  Reductions of 258 .. 10^4 breakpoints (counts just above 2^8, 2^10, 2 * 2^10, 2^12, 2 * 2^12, 10^4) of
+# curves of 10^4 .. 10^5 points are replayed into evaluation.mip / compute_global_rmse (under a quadratic back-edge budget) and
+# judged, like the small inputs, against an independent evaluation of the definition.
+S_SHAPES = ("decay-noise", "mrc", "walk", "zigzag-grow")
+S_LAYOUTS = ("random", "even-jitter", "dense-block", "left-heavy")
+S_XMODES = ("unit", "uneven")
+_LD = np.longdouble
+_EPS = 2.0 ** -52
+
+
+def _s_curve(shape, n, seed, xmode):
+    """strictly increasing integer abscissae (unit or uneven spacing), ordinates > 0 on a 2^-20 grid."""
+    import random
+    g = np.random.default_rng([seed, n, S_SHAPES.index(shape)])
+    i = np.arange(n, dtype=float)
+    if shape == "decay-noise":       # miss-ratio like: decreasing convex, a few cliffs, noise
+        y = 1.0 / np.sqrt(1.0 + i) + 0.2 * np.exp(-5.0 * i / n) + 0.05 * (np.sin(40.0 * i / n) > 0.3) * np.exp(-2.0 * i / n)
+        y = np.abs(y + g.normal(0.0, 5e-3, n)) + 0.05
+    elif shape == "mrc":             # scale.mrc (ordinates up to 1000, cliffs) with a dyadic texture of amplitude 2
+        y = scale.mrc(n, random.Random(seed * 31 + n), knees=8)[:, 1] + 1.0 + g.integers(0, 65, n) / 32.0
+    elif shape == "walk":            # random walk: deletions of very different weight
+        y = np.cumsum(g.integers(-3, 4, n)) / 8.0
+        y = y - y.min() + 1.0
+    else:                            # zigzag whose amplitude grows to the right
+        y = scale.zigzag(n, growth=1.0 / 512)[:, 1] + 1.0
+    y = np.round(y * 2.0 ** 20) / 2.0 ** 20
+    x = i + 1.0 if xmode == "unit" else np.cumsum(g.integers(1, 4, n)).astype(float)
+    return np.ascontiguousarray(np.column_stack([x, y]))
+
+
+def _s_breakpoints(layout, n, k, seed):
+    """k ascending indices containing both ends."""
+    g = np.random.default_rng([seed, n, k, S_LAYOUTS.index(layout)])
+    inner = np.arange(1, n - 1)
+    if layout == "random":
+        pick = g.choice(inner, size=k - 2, replace=False)
+    elif layout == "even-jitter":
+        w = (n - 2) / float(k - 2)
+        pick = (1 + np.floor(np.arange(k - 2) * w) + g.integers(0, max(1, int(w)), k - 2)).astype(int)
+    elif layout == "dense-block":    # a run of adjacent breakpoints (segments of 2 points) and a sparse remainder
+        m = (k - 2) // 3
+        a = int(g.integers(1, n - 2 - m))
+        rest = np.setdiff1d(inner, np.arange(a, a + m))
+        pick = np.concatenate([np.arange(a, a + m), g.choice(rest, size=k - 2 - m, replace=False)])
+    else:                            # left-heavy: two thirds of the breakpoints in the first tenth of the curve
+        m = min(2 * (k - 2) // 3, n // 10 - 2)
+        pick = np.concatenate([g.choice(np.arange(1, n // 10), size=m, replace=False),
+                               g.choice(np.arange(n // 10, n - 1), size=k - 2 - m, replace=False)])
+    S = np.unique(np.concatenate([[0], pick, [n - 1]]))
+    if len(S) < k:                   # (jitter collisions) top up
+        rest = np.setdiff1d(inner, S)
+        S = np.unique(np.concatenate([S, g.choice(rest, size=k - len(S), replace=False)]))
+    return S.astype(np.int64)
+
+
+def _s_median(v):
+    v = np.sort(v)
+    m = len(v)
+    return v[m // 2] if m % 2 else (v[m // 2 - 1] + v[m // 2]) / 2
+
+
+def _s_oracle(P, S):
+    """The definition, independently: squared residuals against the two-point form of the interpolant through S in extended
+    precision; deleting breakpoint i only changes the interpolant between its neighbours, so the sum of squares after the
+    deletion is prefix + re-evaluated window + suffix (no subtraction).  Returns rmse, mip, mad, the improvements, and U: a
+    bound (in units of eps) on the root-mean-square of the rounding errors of the ordinates b + m * x a binary64
+    evaluation in slope-intercept form fits on any of the reconstructions involved (per point: |m| * x + |y|)."""
+    n = len(P)
+    x, y = P[:, 0].astype(_LD), P[:, 1].astype(_LD)
+    k = len(S)
+    seg = np.clip(np.searchsorted(S, np.arange(n), side="right") - 1, 0, k - 2)
+    a, b = S[seg], S[seg + 1]
+    h = y[a] + (y[b] - y[a]) * (x - x[a]) / (x[b] - x[a])
+    r0 = (y - h) ** 2
+    pre = np.concatenate([[_LD(0)], np.cumsum(r0)])
+    suf = np.concatenate([np.cumsum(r0[::-1])[::-1], [_LD(0)]])
+    base = np.sqrt(pre[n] / n)
+    ip = np.empty(k - 2, dtype=_LD)
+    xs, ys = P[S, 0], np.abs(P[S, 1])
+    u = np.abs(np.diff(P[S, 1]) / np.diff(xs)) * np.abs(xs[1:]) + np.maximum(ys[1:], ys[:-1])
+    q0 = float(np.sum((np.diff(S) + 1) * u * u))
+    qx = 0.0
+    for i in range(1, k - 1):
+        l, r = int(S[i - 1]), int(S[i + 1])
+        m = (y[r] - y[l]) / (x[r] - x[l])
+        hh = y[l] + m * (x[l:r + 1] - x[l])
+        sse = pre[l] + np.sum((y[l:r + 1] - hh) ** 2) + suf[r + 1]
+        ip[i - 1] = np.sqrt(sse / n) - base
+        um = abs(float(m)) * abs(float(x[r])) + max(abs(float(y[l])), abs(float(y[r])))
+        qx = max(qx, (r - l + 1) * um * um)
+    med = _s_median(ip)
+    mad = _s_median(np.abs(ip - med))
+    return float(base), float(med), float(mad), ip, math.sqrt((q0 + qx) / n)
+
+
+def _s_plain_ip(P, S, i):
+    """the definition as it reads (binary64, np.interp over the whole curve): improvement of interior breakpoint i."""
+    x, y = P[:, 0], P[:, 1]
+
+    def rmse(T):
+        return math.sqrt(math.fsum((y - np.interp(x, x[T], y[T])) ** 2) / len(P))
+    return rmse(np.delete(S, i)) - rmse(S)
+
+
+def _s_item(item):
+    """one scale case (a recipe): returns (recipe, info, [(clause, detail)], oracle_problem or None)"""
+    if item is None:
+        return None
+    import kneeliverse.evaluation as ev
+    shape, layout, xmode, n, k, seed = item
+    P = _s_curve(shape, n, seed, xmode)
+    S = _s_breakpoints(layout, n, k, seed)
+    assert len(S) == k and S[0] == 0 and S[-1] == n - 1 and np.all(np.diff(S) > 0) and np.all(np.diff(P[:, 0]) > 0)
+    base, med, mad, ip, U = _s_oracle(P, S)
+    # rounding model (binary64 library side; the oracle's own is far below): a fitted ordinate b + m * x carries an error of a
+    # few eps * (|m| * x + |y|); the norm of the residual vector is 1-Lipschitz, so a global RMSE moves by at most the
+    # root-mean-square of those errors (8 * eps * U), plus n * eps relative for the long sums; an improvement is a
+    # difference of two RMSEs; median and MAD are 1- and 2-Lipschitz in the improvements
+    worst = base + max(0.0, float(np.max(ip)))
+    delta = 4.0 * (8.0 * _EPS * U + n * _EPS * worst)
+    # the oracle is not trusted blindly: the plain reading of the definition on a sample of the deletions
+    problem = None
+    g = np.random.default_rng([seed, k, 77])
+    for i in sorted(set([1, k - 2] + [int(v) for v in g.integers(1, k - 1, 10)])):
+        pv = _s_plain_ip(P, S, i)
+        if abs(pv - float(ip[i - 1])) > delta:
+            problem = "incremental oracle %r vs plain definition %r at breakpoint %d (delta %g)" % (float(ip[i - 1]), pv, i, delta)
+    bad = []
+    info = {"n": n, "k": k, "rmse": base, "mip": med, "mad": mad, "delta": delta,
+            "distinct_improvements": int(len(np.unique(ip.astype(float))))}
+    # ---- global RMSE: value, cache transparency (fresh / shared / repeated)
+    c = {}
+    calls = [monitor.call(ev.compute_global_rmse, (P, S.copy()) + extra, budget=monitor.quad(k, 8), wall=600) for extra in ((c,), (), (c,))]
+    if any(o != "returned" for o, _, _ in calls):
+        bad.append(("returns", {"fn": "compute_global_rmse", "outcome": [o for o, _, _ in calls], "value": str([v for _, v, _ in calls])[:200]}))
+    else:
+        r1, r2, r3 = [v for _, v, _ in calls]
+        if not (_bits(r1) == _bits(r2) == _bits(r3)):
+            bad.append(("cache-transparent", {"fn": "compute_global_rmse", "values": [float(r1), float(r2), float(r3)]}))
+        if not numeric.close(r1, base, rel=1e-9, ab=max(1e-12, delta)):
+            bad.append(("rmse-is-interpolation-rmse", {"got": float(r1), "expected": base, "tolerance": max(1e-12, delta, 1e-9 * base)}))
+    # ---- MIP and its MAD
+    out, v, counts = monitor.call(ev.mip, (P, S.copy()), budget=monitor.quad(k, 8), wall=3600)
+    info["back_edges"] = int(sum(counts.values()))
+    if out != "returned":
+        bad.append(("returns", {"fn": "mip", "outcome": out, "value": str(v)[:200]}))
+    else:
+        try:
+            m, d = float(v[0]), float(v[1])
+        except Exception:
+            m = d = float("nan")
+            bad.append(("returns", {"fn": "mip", "outcome": "returned", "value": str(v)[:200]}))
+        if not bad or bad[-1][0] != "returns":
+            if not (numeric.close(m, med, rel=1e-9, ab=max(1e-12, delta)) and numeric.close(d, mad, rel=1e-9, ab=max(1e-12, 2 * delta))):
+                bad.append(("mip-definition", {"got": [m, d], "expected": [med, mad], "interior_breakpoints": k - 2,
+                                               "tolerance": [max(1e-12, delta, 1e-9 * abs(med)), max(1e-12, 2 * delta, 1e-9 * abs(mad))]}))
+    return list(item), info, bad, problem
+
+
+def _s_plan(ctx):
+    """counts of breakpoints just above the thresholds a shortcut would use (T + 2 ends, 2T + 2 for a stride) with a ragged
+    remainder; shapes / layouts / spacings / curve lengths drawn per case."""
+    r = ctx.rng.randrange
+    ks = [258 + r(0, 30), 1026 + r(0, 60), 1500 + r(0, 200), 2050 + r(0, 40), 2600 + r(0, 300), 4098 + r(0, 60)]
+    if not ctx.quick:
+        ks += [514 + r(0, 30), 2050 + r(40, 400), 3074 + r(0, 100), 5000 + r(0, 300), 6200 + r(0, 300), 8194 + r(0, 100), 10002 + r(0, 100)]
+    lens = [10001 + r(1, 2000), 16385 + r(1, 4000), 30000, 32769 + r(1, 8000), 65537 + r(1, 9000), 100001 + r(1, 9000)]
+    items = []
+    for j, k in enumerate(sorted(ks, reverse=True)):          # the long ones first: they decide the wall time
+        cand = [n for n in lens if n >= 3 * k]
+        n = 30000 if (j % 3 == 0 and 30000 in cand) else cand[(2 * j + ctx.seed + r(0, 2)) % len(cand)]
+        layout = S_LAYOUTS[(j + ctx.seed) % len(S_LAYOUTS)]
+        if layout == "left-heavy" and n // 10 < k:
+            layout = "random"
+        items.append((S_SHAPES[(j + r(0, 4)) % len(S_SHAPES)], layout, ctx.rng.choice(S_XMODES), n, k, ctx.seed * 1009 + j))
+    return items
+
+
+def _s_run(ctx, items, replay_case=None):
+    # par.pmap runs batches of fewer than 32 items serially: pad with no-op items, one item per task
+    res = par.pmap(_s_item, list(items) + [None] * max(0, 32 - len(items)), chunksize=1)[:len(items)]
+    for rec, info, bad, problem in res:
+        if problem:
+            from harness.main import Machinery
+            raise Machinery("C15 scale family: %s on %s" % (problem, rec))
+        case = replay_case or {"kind": "Smip", "recipe": rec}
+        for clause, detail in bad:
+            ctx.violation(clause, case, dict(detail, recipe=rec, **{q: info[q] for q in ("n", "k")}))
+    return res
+
+
 STATIC = {"id": "static", "n": 5, "metric": "r2", "events": [
     {"S": [0, 2, 4], "outcome": "returned", "keys": [[0, 2], [2, 4]], "tss": True, "shared_eq_fresh": True, "defcls": "equal", "nonneg": True, "perfect": "na"},
     {"S": [0, 1, 2, 3, 4], "outcome": "returned", "keys": [[0, 1], [0, 2], [1, 2], [2, 3], [2, 4], [3, 4]], "tss": True, "shared_eq_fresh": True, "defcls": "equal", "nonneg": True, "perfect": "ok"}]}
@@ -275,7 +469,12 @@ def run(ctx):
     ctx.rule = ("G: every query history of <=3 (quick, n<=5) breakpoint sets x 5 metrics emitted by TLC, replayed on 3 curves "
                 "each (integer y in 1..4, integer y in 0..3 uneven x, decreasing float) with shared and fresh caches; "
                 "T: random float curves (n<=60) x random histories of <=8 queries.  non-trivial: a history with a cache hit "
-                "(a segment shared by two queries) or a query with a contributing segment")
+                "(a segment shared by two queries) or a query with a contributing segment.  "
+                "Scale family: evaluation.mip / compute_global_rmse on reductions of 258 .. 4160 (thorough: .. 10^4) breakpoints - "
+                "counts just above 2^8, 2^10, 2*2^10, 2^12 (2*2^12, 10^4) - of curves of 10^4 .. 1.1*10^5 points (4 shapes x 4 "
+                "breakpoint layouts x unit / uneven spacing) under quadratic back-edge budgets, judged against an independent "
+                "extended-precision evaluation of the definition (every interior breakpoint deleted in turn; tolerance = the "
+                "check's 1e-9 / 1e-12 widened by the rounding model eps * (|slope| * |x| + |y|) + n * eps * rmse)")
     ctx.assumptions += numeric.ASSUMPTIONS + [
         "real arithmetic of a CostExpr is evaluated by harness/costdef.py over exact fractions (eps=1e-16 exactly), logs/sqrt in binary64",
         "0/eps situations (exact numerator 0 over a denominator that is only the eps guard) are classed 'ambiguous' and not compared",
@@ -325,6 +524,26 @@ def run(ctx):
                       {"kind": "T", "points": m["points"], "metric": m["metric"], "queries": m["queries"]},
                       {"verdict": vs[0], "values": m["values"]})
     ctx.sample({"binding": "T", "case": cases[0]})
+    # ---- scale family (MIP / global RMSE on thousands of breakpoints)
+    import time
+    t0 = time.time()
+    sres = _s_run(ctx, _s_plan(ctx))
+    for rec, info, bad, _ in sres:
+        ctx.count(("S", rec), info["distinct_improvements"] > 2)
+    ctx.traces += len(sres)
+    big = [info for _, info, _, _ in sres if info["k"] - 2 >= 2048]
+    ctx.extra["scale_family"] = {
+        "cases": len(sres), "wall_s": round(time.time() - t0, 1), "breakpoints": sorted(info["k"] for _, info, _, _ in sres),
+        "curve_points": sorted(set(info["n"] for _, info, _, _ in sres)),
+        "shapes": sorted(set(rec[0] for rec, _, _, _ in sres)), "layouts": sorted(set(rec[1] for rec, _, _, _ in sres)),
+        "max_back_edges_over_budget": max(info.get("back_edges", 0) / float(monitor.quad(info["k"], 8)) for _, info, _, _ in sres),
+        "judged": "harness, against the extended-precision definition (as the small inputs: floats never enter TLC); "
+                  "clauses returns, cache-transparent (compute_global_rmse), rmse-is-interpolation-rmse, mip-definition (median and MAD)",
+        "not_judged_at_scale": "compute_global_cost on thousands of breakpoints (its long-curve histories are the 'big' cases of T)"}
+    if not big or all(info["distinct_improvements"] <= 2 for info in big):
+        ctx.note("VACUOUS-SCALE-FAMILY: no reduction with 2048+ interior breakpoints of distinct weight was evaluated")
+    rec, info, _, _ = sres[0]
+    ctx.sample({"binding": "scale", "recipe": rec, "info": info})
 
 
 def replay(ctx, obj):
@@ -338,6 +557,8 @@ def replay(ctx, obj):
         for cid, vs in rej.items():
             if not vs[0][0].startswith("DRIFT:"):
                 ctx.violation(vs[0][0], c, {"verdict": vs[0], "values": m["values"]})
+    elif c["kind"] == "Smip":
+        _s_run(ctx, [tuple(c["recipe"])], replay_case=c)
     elif c["kind"] == "Tx":
         for clause, detail in _rmse_mip(np.array(c["points"], float), c["S"]):
             ctx.violation(clause, c, detail)
